@@ -252,16 +252,9 @@ func (dsm *DsManager) DeleteDataset(name string) error {
 	existingDataset := dsm.GetDataset(name)
 	existingDataset.markedForDeletion = true
 
-	// delete from local cache
-	dsm.store.datasets.Delete(name)
-	dsm.store.datasetsByInternalID.Delete(existingDataset.InternalID)
-	key := existingDataset.getStorageKey()
-	err := dsm.store.deleteValue(key)
-	if err != nil {
-		return err
-	}
-
-	// record we deleted it.
+	// record we deleted it, before the dataset record itself is removed: if the process dies in between, the
+	// data of the dataset must already be filtered out (it would otherwise stay visible to unscoped reads with no
+	// dataset left to delete). A repeated delete completes the operation.
 	// swap map out with new modified copy of map to avoid concurrent read/write issues which can occur if
 	// a user deletes a dataset while this map is iterated over (in garbagecollector for example)
 	newDeletedDatasets := make(map[uint32]bool)
@@ -269,8 +262,17 @@ func (dsm *DsManager) DeleteDataset(name string) error {
 		newDeletedDatasets[k] = v
 	}
 	newDeletedDatasets[existingDataset.InternalID] = true
+	err := dsm.store.StoreObject(StoreMetaIndex, "deleteddatasets", newDeletedDatasets)
+	if err != nil {
+		return err
+	}
 	dsm.store.deletedDatasets = newDeletedDatasets
-	err = dsm.store.StoreObject(StoreMetaIndex, "deleteddatasets", dsm.store.deletedDatasets)
+
+	// delete from local cache and remove the dataset record
+	dsm.store.datasets.Delete(name)
+	dsm.store.datasetsByInternalID.Delete(existingDataset.InternalID)
+	key := existingDataset.getStorageKey()
+	err = dsm.store.deleteValue(key)
 	if err != nil {
 		return err
 	}
